@@ -1,9 +1,12 @@
 '''C02 Index: unique labels, exact label-to-position bijection.'''
 from sfa.report import Ctx
+from sfa.rules import atomic
+from sfa.rules import indexrules
+from sfa.rules import own
 from sfa.rules import recache
 
 LEVEL_TEXT = (
-    'Static decision of structural clauses of C02. (c) Coherence after growth: every read of the lazily rebuilt '
+    'Static decision of structural clauses of C02. (a) Uniqueness cannot be bypassed: in Index.__init__ the AutoMap construction is the only non-donor source of the map, its ValueError handler leads to ErrorInitIndexNonUnique on every path, the no-map (loc_is_iloc) path is reachable only from IndexAutoFactory with PositionsAllocator labels or by propagation from a map-less donor, a donor map is shared only when both indices are static, and __contains__ consults the map or the 0..n-1 range. (b) Tree form: from_labels and _from_type_blocks share the non-sequential-predecessor test and raise ErrorInitIndex. (d) IndexGO.append / datetime append / IndexLevelGO mutators update their components in lock-step and validate before mutating. (c) Coherence after growth: every read of the lazily rebuilt '
     'Index._labels/_positions and ArrayGO._array anywhere in core is dominated by the staleness guard '
     '(forward must-dataflow over every path of every function, with ensures-fresh summaries and interprocedural '
     'requires-fresh propagation for private readers). A read without the guard serves the pre-growth arrays after an '
@@ -12,7 +15,7 @@ LEVEL_TEXT = (
 
 CLAIM = dict(
     text=LEVEL_TEXT,
-    technique='typestate dataflow on lazy-cache freshness (dominance of the staleness guard over every read) with function summaries',
+    technique='lazy-cache freshness typestate + who-may-call on the no-map path + exception-path structure of the uniqueness check + sibling agreement of the tree builders + lock-step analysis of the grow-only mutators',
     design_ref='DESIGN.md section 2.B and section 3 C02',
 )
 
@@ -20,3 +23,7 @@ CLAIM = dict(
 def run(ctx: Ctx) -> None:
     recache.check(ctx, 'Index', floor_reads=36)
     recache.check(ctx, 'ArrayGO', floor_reads=5)
+    indexrules.uniqueness(ctx)
+    indexrules.tree_form(ctx)
+    own.c_sharing_guards(ctx, only=('Index.__init__', 'index.immutable_index_filter', 'mutable_immutable', 'container_util.index_from_optional'))
+    atomic.d_atomic(ctx, only=('index.', 'index_datetime.', 'index_level.', 'array_go.'))
